@@ -28,7 +28,7 @@ namespace fastscapelib
          * Grid node structure.
          *
          * Stores both grid position and elevation at that position.
-         * Also defines  operator '>' that compares only on `elevation`.
+         * Also defines  operator '>' that compares on `elevation`, then on position.
          *
          * The main purpose of this container is for using with
          * priority-flood algorithms.
@@ -52,7 +52,11 @@ namespace fastscapelib
 
             bool operator>(const pflood_node<FG, T>& other) const
             {
-                return m_elevation > other.m_elevation;
+                // ties are broken on the node index so that the order in which nodes
+                // leave the queue (hence the result) does not depend on the order in
+                // which they entered it
+                return m_elevation > other.m_elevation
+                       || (m_elevation == other.m_elevation && m_idx > other.m_idx);
             }
         };
 
